@@ -230,6 +230,15 @@ func (fc *FnCtx) heldKey(p PtrV) string {
 	return "ghost|held|" + prefix
 }
 
+// havocHeld forgets which locks are held (after a call whose locking behaviour is unknown).
+func (fc *FnCtx) havocHeld(st *State) {
+	for k, srt := range fc.keySort {
+		if strings.HasPrefix(k, "ghost|held|") {
+			fc.havocKey(st, k, srt)
+		}
+	}
+}
+
 func (fc *FnCtx) heldGet(st *State, p PtrV) string {
 	h := fc.heapSym(st, fc.heldKey(p), "(Array Int Bool)")
 	return app("select", h, p.Ref)
